@@ -285,3 +285,58 @@ def mentions(text, name):
     import re
 
     return bool(re.search(r"(\.%s\b(?!_))|(['\"]%s['\"])" % (re.escape(name), re.escape(name)), text))
+
+
+def memo_form(fn):
+    """Memoising getter?  Recognised layouts (S = a slot of self):
+         if <S absent>: <compute, storing self.S> ; return self.S
+         if <S present>: return self.S ; <compute, storing self.S> ; return self.S
+       absent: `not hasattr(self, 'S')`, `self.S is None`; present: the negations.
+       -> {"slot": S, "compute": [statements], "store_stmts": [...]} or None"""
+    body = [s for s in fn.body if not (isinstance(s, ast.Expr) and isinstance(s.value, ast.Constant))]
+    if not body:
+        return None
+
+    def slot_test(t):
+        """(slot, 'absent'|'present') or None"""
+        pol = True
+        while isinstance(t, ast.UnaryOp) and isinstance(t.op, ast.Not):
+            t, pol = t.operand, not pol
+        if isinstance(t, ast.Call) and norm(t.func) == "hasattr" and len(t.args) == 2 and norm(t.args[0]) == "self" and isinstance(t.args[1], ast.Constant):
+            return str(t.args[1].value), ("present" if pol else "absent")
+        if isinstance(t, ast.Compare) and len(t.ops) == 1 and isinstance(t.comparators[0], ast.Constant) and t.comparators[0].value is None and isinstance(t.left, ast.Attribute) and norm(t.left.value) == "self":
+            if isinstance(t.ops[0], ast.Is):
+                return t.left.attr, ("absent" if pol else "present")
+            if isinstance(t.ops[0], ast.IsNot):
+                return t.left.attr, ("present" if pol else "absent")
+        return None
+
+    def returns_slot(st, slot):
+        return isinstance(st, ast.Return) and isinstance(st.value, ast.Attribute) and norm(st.value.value) == "self" and st.value.attr.lstrip("_") == slot.lstrip("_")
+
+    def stores(stmts, slot):
+        out = []
+        for st in stmts:
+            for n in ast.walk(st):
+                if isinstance(n, (ast.Assign, ast.AnnAssign)):
+                    for t in (n.targets if isinstance(n, ast.Assign) else [n.target]):
+                        if isinstance(t, ast.Attribute) and norm(t.value) == "self" and t.attr.lstrip("_") == slot.lstrip("_"):
+                            out.append(n)
+        return out
+
+    first = body[0]
+    if isinstance(first, ast.If) and not first.orelse:
+        st = slot_test(first.test)
+        if st is not None:
+            slot, kind = st
+            if kind == "absent" and len(body) == 2 and returns_slot(body[1], slot) and stores(first.body, slot):
+                return {"slot": slot, "compute": list(first.body), "store_stmts": stores(first.body, slot)}
+            if kind == "present" and len(first.body) == 1 and returns_slot(first.body[0], slot) and len(body) >= 3 and stores(body[1:], slot):
+                last = body[-1]
+                ok_last = returns_slot(last, slot)
+                if not ok_last and isinstance(last, ast.Return) and isinstance(last.value, ast.Name):
+                    # returns the local that was just stored into the slot
+                    ok_last = any(isinstance(s_.value, ast.Name) and s_.value.id == last.value.id for s_ in stores(body[1:], slot) if hasattr(s_, "value"))
+                if ok_last:
+                    return {"slot": slot, "compute": list(body[1:-1]), "store_stmts": stores(body[1:], slot)}
+    return None
